@@ -117,7 +117,7 @@ EXPORT errno_t _wcscmp_s_chk(const wchar_t *restrict dest, rsize_t dmax,
         }
     }
 
-    while (*dest && *src && dmax && smax) {
+    while (dmax && smax && *dest && *src) {
 
         if (*dest != *src) {
             break;
